@@ -5,9 +5,15 @@ from . import gitprops, histcheck
 def check(rep):
     gitprops.run(rep, 'C03')
     histcheck.check(rep, 'C03')
+    # queues with hotfix / stabilization / major branches (concrete graphs of C05, symbolic statuses)
+    from . import c05
+    c05.c03_part(rep)
 
 
 def replay(data):
     if 'history' in data:
         return histcheck.replay('C03', data)
+    if data.get('kind') == 'c05-structures':
+        from . import c05
+        return c05.c03_replay(data)
     return gitprops.replay(data)
